@@ -179,6 +179,12 @@ pub enum Fault {
     /// the last record (bare) is read by a layout of a wider family: from the reader's side the
     /// stored value is too short. Holds the reader layout index.
     ReaderWider(u16),
+    /// a *transient* failure: the one `read` that would run across offset t (strictly inside the range
+    /// it asks for) consumes the bytes before t and then fails, as a stream with `read_exact` semantics
+    /// does on a timeout or a dropped frame; later reads carry on from t. The bytes consumed by the failed
+    /// read are gone, so the decode that issued it must fail (a decoder that quietly asks again completes
+    /// the value from bytes that do not belong to it).
+    TransientAt(usize),
 }
 impl Fault {
     pub fn kind(&self) -> usize {
@@ -189,10 +195,11 @@ impl Fault {
             Fault::BitFlip(_) => 3,
             Fault::Trailing(_) => 4,
             Fault::ReaderWider(_) => 5,
+            Fault::TransientAt(_) => 6,
         }
     }
 }
-pub const FAULT_KINDS: [&str; 6] = ["none", "truncate_at", "io_error_at", "bit_flip", "trailing", "reader_wider"];
+pub const FAULT_KINDS: [&str; 7] = ["none", "truncate_at", "io_error_at", "bit_flip", "trailing", "reader_wider", "transient_error_at"];
 /// Input-mode perturbations are counted as fault kinds of their own in the evidence.
 pub const MODE_KINDS: [&str; 6] = ["short_read", "eintr", "remaining_len_none", "remaining_len_err", "native_read_byte", "remaining_len_over_reports"];
 
@@ -279,6 +286,7 @@ impl Fault {
             Fault::BitFlip(p) => json!({"kind": "bit_flip", "bit": p}),
             Fault::Trailing(b) => json!({"kind": "trailing", "bytes": b}),
             Fault::ReaderWider(l) => json!({"kind": "reader_wider", "r_lay": l}),
+            Fault::TransientAt(t) => json!({"kind": "transient_error_at", "byte": t}),
         }
     }
     pub fn from_json(v: &Value) -> Result<Fault, String> {
@@ -293,6 +301,7 @@ impl Fault {
                 v.get("bytes").and_then(|x| x.as_array()).ok_or("fault.bytes")?.iter().map(|x| x.as_u64().unwrap_or(0) as u8).collect(),
             ),
             "reader_wider" => Fault::ReaderWider(n("r_lay")? as u16),
+            "transient_error_at" => Fault::TransientAt(n("byte")? as usize),
             _ => return Err(format!("unknown fault kind {}", k)),
         })
     }
